@@ -8,7 +8,7 @@ usage: tools/redetect.py [seed-name ...]
 import json, os, shutil, subprocess, sys, tempfile
 from concurrent.futures import ThreadPoolExecutor
 
-ENV = dict(os.environ, GOFLAGS="-mod=mod", GOPROXY="off", GOSUMDB="off", GOTOOLCHAIN="local", CRS_NOSELFTEST="1")
+ENV = dict(os.environ, GOFLAGS="-mod=mod", GOPROXY="off", GOSUMDB="off", GOTOOLCHAIN="local", CRS_NOSELFTEST="1", CRS_NOREPLAY="1")
 ENV.pop("GOWORK", None)
 SEEDS = "/verif/seeded"
 IDS = [f"C{i:02d}" for i in range(1, 21)]
